@@ -1122,8 +1122,10 @@ def inline_calls(crate, body, pred, depth=3, _stack=()):
         callee = crate.bodies.get(c.get("resolved")) or crate.bodies.get(c.get("path"))
         if callee is None or callee.name in rec or callee.name == body.name or callee.name in _stack or callee.kind == "promoted":
             continue
-        if t.get("t") is None or not pred(callee, t):
+        if not pred(callee, t):
             continue
+        if t.get("t") is None and callee.return_blocks():
+            continue  # diverging call of a function that can return: leave it alone
         callee = inline_calls(crate, callee, pred, depth - 1, _stack + (body.name,))
         cj = callee.j
         loff = len(locals_)
@@ -1148,9 +1150,12 @@ def inline_calls(crate, body, pred, depth=3, _stack=()):
             ct = dict(cb["term"])
             k = ct["k"]
             if k == "return":
-                nbk["stmts"].append({"k": "assign", "place": dest, "rv": {"k": "use", "op": {"move": {"l": loff, "p": [], "ty": cj["locals"][0]["ty"]}}},
-                                     "span": t.get("span", {})})
-                ct = {"k": "goto", "t": ret_target}
+                if ret_target is None:
+                    ct = {"k": "unreachable"}
+                else:
+                    nbk["stmts"].append({"k": "assign", "place": dest, "rv": {"k": "use", "op": {"move": {"l": loff, "p": [], "ty": cj["locals"][0]["ty"]}}},
+                                         "span": t.get("span", {})})
+                    ct = {"k": "goto", "t": ret_target}
             else:
                 if k == "goto":
                     ct["t"] = ct["t"] + boff
